@@ -539,6 +539,12 @@ func (g *gen) regex(nRandom int) []program {
 		`.re as $re | .fl as $fl | .s | sub($re; "<\(.)>"; $fl)`,
 		`.re as $re | .s | test($re), test($re; "i"), test($re; "g"), test("x" + $re)`,
 		`. as {s: $s, re: $re} | [$s, $s + "a"] | map(test($re))`,
+		// hundreds of distinct patterns in ONE run (a cache with a size limit, an eviction or a
+		// reset is only exercised beyond its limit), while the other goroutines do the same
+		`. as {s: $s, re: $re} | try ([range(300) as $i | $s | test("z\($i)|" + $re)] | map(select(.)) | length) catch "bad"`,
+		`. as {s: $s} | [range(1; 200) as $i | $s | [match("a{1,\($i)}"; "g")] | length] | add`,
+		`. as {s: $s, re: $re, fl: $fl} | try ([range(260) as $i | $s | [scan("(?<n>q\($i))|" + $re; $fl)] | length] | add) catch "bad"`,
+		`. as {s: $s} | reduce range(520) as $i (0; . + ($s | if test("^\($i % 173)x|b+") then 1 else 0 end))`,
 	}
 	dynInputs := func() []any {
 		n := g.r.Range(16, 40)
